@@ -3,6 +3,7 @@ from __future__ import annotations
 import json
 from .units.r import UnitR
 from .units.m import UnitM
+from .units.s import UnitS
 from .units import r_replay
 
 
@@ -80,6 +81,35 @@ PROPS['C19'] = {
     'assumptions': ['yaserde/xml-rs stand-ins in contracts/dep_yaserde.rs', 'vstd model of Arc (transparent in specifications)'],
 }
 
+PROPS['C16'] = {
+    'units': [UnitS], 'level': 'proof', 'design_ref': 'DESIGN.md 4.16',
+    'scope': 'helpers::send_soap_request_using_client and helpers::send_soap_request (the code every generated client method '
+             'calls), for all request/response types, urls, credentials, and every outcome of the exchange',
+    'level_text': 'Deductive proof (Verus/Z3) over the real text of the two helper functions against contract-only reqwest/yaserde '
+                  'stand-ins: the request that reaches `send` is a POST to the given url whose body is the serialization of the '
+                  'envelope, with Basic credentials exactly when configured (callee preconditions); a value is returned only when '
+                  'transport, status (not 4xx/5xx), body read and parse all succeeded, it is the parsed reply, and a good exchange '
+                  'does yield it. All outcomes are symbolic (uninterpreted), so this covers every status/body/failure combination.',
+    'level_note': 'Trusted: the reqwest/yaserde stand-in contracts (contracts/dep_reqwest.rs, dep_yaserde.rs) incl. that `send` is the '
+                  'only wire operation and consumes its builder. "At most one POST" additionally rests on a syntactic guard (one '
+                  '`.send(` call site, loop-free body; otherwise the check is inconclusive). One extraction rewrite: '
+                  '`map_err(SoapError::YaserdeError)` is eta-expanded (additive). Forwarding of client/location/credentials by the '
+                  'generated methods is not covered here. 3xx handling is outside the property.',
+    'assumptions': ['reqwest 0.12 behaves as the stand-in contracts say', 'yaserde::ser::to_string / de::from_str are functions of their argument',
+                    'Display output is a function of the value (display<T>)'],
+}
+PROPS['C07'] = {
+    'units': [UnitS], 'level': 'proof', 'design_ref': 'DESIGN.md 4.7',
+    'scope': '(b) transmission half: a request that fails its restriction check yields an error and no network-capable call is reachable '
+             'before the check has passed',
+    'level_text': 'Deductive proof (Verus/Z3): every network-capable stand-in call (send, text) requires net_allowed(), and the helper is '
+                  'verified under `req.sat(None) ==> net_allowed()` only, so any wire operation on a path where the check failed (or before '
+                  'it ran) is an unmet precondition; `!req.sat(None) ==> res is Err` is a postcondition.',
+    'level_note': 'Trusted: stand-in contracts as for C16; the trait contract of CheckRestrictions (proved per impl under C06 and, for '
+                  'emitted impls, by the L3 pipeline). The error VARIANT (Restriction) is not proved: the `?` conversion hides it from Verus.',
+    'assumptions': ['reqwest stand-ins', 'req.dom(None): numerals beyond i128 in numeric-restricted text are outside the domain (known finding of C06)'],
+}
+
 PLANNED = 'claimed in DESIGN.md but the check is not built yet at this commit (listed here so that no unbuilt check is advertised)'
 NOT_APPLICABLE = {
     'C01': 'Compilability of a whole emitted file is decided by rustc name resolution/type checking and yaserde_derive proc-macro expansion; no pre/postcondition of a zeep function entails it and Verus cannot load the dependency crates (DESIGN 4.1).',
@@ -89,8 +119,8 @@ NOT_APPLICABLE = {
     'C12': 'Determinism across processes/hash seeds/registration orders is a hyperproperty over pairs of runs (HashMap RandomState, flags persisting across calls); not expressible as a per-call contract without a complete functional spec of the generator (DESIGN 4.12).',
     'C17': 'Process-level observables (exit status, panics as error path, clap, File::create effects); no function result to attach a postcondition to and no file-system model in Verus/Kani (DESIGN 4.17).',
     'C18': 'Send/Sync are auto traits decided by rustc\'s trait solver over the real reqwest future types; neither verifier has a notion of auto traits (DESIGN 4.18).',
-    'C02': PLANNED, 'C05': PLANNED, 'C07': PLANNED, 'C08': PLANNED, 'C09': PLANNED, 'C10': PLANNED,
-    'C13': PLANNED, 'C14': PLANNED, 'C15': PLANNED, 'C16': PLANNED,
+    'C02': PLANNED, 'C05': PLANNED, 'C08': PLANNED, 'C09': PLANNED, 'C10': PLANNED,
+    'C13': PLANNED, 'C14': PLANNED, 'C15': PLANNED,
 }
 NOTES = ('All checks: ./check <id> [--tier quick|thorough]; exit 0 ok, 1 VIOLATION, 2 inconclusive (lost anchor / unsupported '
          'construct / solver limit / vacuity guard) which is never an alarm. Known findings: /verif/known_findings.json. '
